@@ -113,7 +113,7 @@ def ref_merge(base, placements):
     return bytes(area) + hashlib.sha256(bytes(area)).digest()
 
 
-def do_merge(m, base, offs, agg, key, label, via_main=False, none_files=False):
+def do_merge(m, base, offs, agg, key, label, via_main=False, none_files=False, repeat=None):
     with fresh_dir("c12m") as d:
         files = []
         for n, off in enumerate(offs):
@@ -122,6 +122,10 @@ def do_merge(m, base, offs, agg, key, label, via_main=False, none_files=False):
             files.append(f)
         out = os.path.join(d, "merged.hex")
         want = ref_merge(base, offs)
+        if repeat is not None:
+            # the SAME input file named twice: it overlaps itself completely and must be rejected
+            files = files + [files[repeat]]
+            want = None
         farg = None if (none_files and not files) else files
         try:
             if via_main:
@@ -179,6 +183,8 @@ def subset_cases(tier):
         for mask in range(256):
             offs = [k * SLOT for k in range(NSLOT) if mask >> k & 1]
             out.append({"base": b, "offs": offs})
+            if offs and mask % 5 == 0:
+                out.append({"base": b, "offs": offs, "repeat": (mask // 5) % len(offs)})
             if tier == "thorough":
                 for name, off in PLACEMENTS[NSLOT:]:
                     out.append({"base": b, "offs": offs + [off]})
@@ -186,7 +192,7 @@ def subset_cases(tier):
 
 
 def run_subset(case, agg):
-    do_merge(_mpi(), case["base"], case["offs"], agg, h8("msub", case), f"{case}")
+    do_merge(_mpi(), case["base"], case["offs"], agg, h8("msub", case), f"{case}", repeat=case.get("repeat"))
 
 
 # -- the real CLI (argument parsing: flags, address syntax, repeated --file) ------------------------------------
